@@ -168,6 +168,9 @@ def _caller_excludes_empty(prog, fi, desc):
                 if (op, cst) in (("Lt", 1), ("LtE", 0)):
                     out.add((u(e.left).replace(" ", "") + "==0", taken))
                     return
+            if isinstance(e, (ast.Attribute, ast.Name)) and taken in (True, False):
+                # truthiness of a sequence: `x` holds iff `len(x) == 0` does not
+                out.add(("len(" + u(e).replace(" ", "") + ")==0", not taken))
             out.add((u(e).replace(" ", ""), taken))
 
         more = set()
